@@ -34,6 +34,10 @@ def stale_signature(before_spec, after_spec, op):
     lab = op_label(op)
     if history.has_shared_job(before_spec) or history.has_shared_job(after_spec):
         return "C01:stale:shared-job"
+    # D27: a usage pattern that exists outside the system (taken out of `system.usage_patterns`) keeps loading the
+    # servers, storages and networks it shares with the system
+    if any(set(sp["patterns"]) - set(sp["system"]["usage_patterns"]) for sp in (before_spec, after_spec)):
+        return "C01:stale:usage-pattern-outside-the-system"
     if op["op"] == "setlink" and op.get("attr") == "usage_journey" and not history.journey_jobs(
             before_spec, before_spec["patterns"][op["name"]]["usage_journey"]):
         return "C01:stale-after-set:patterns.usage_journey:from-jobless-journey"
@@ -96,7 +100,7 @@ def safe_after(live, op):
 
 def reachable_spec_names(spec):
     servers, storages, networks = sysoracles.reachable(spec)
-    names = set(servers) | set(storages) | set(networks) | set(spec["system"]["usage_patterns"])
+    names = set(servers) | set(storages) | set(networks) | set(spec["system"]["usage_patterns"]) | {"__system__"}
     for pn in spec["system"]["usage_patterns"]:
         p = spec["patterns"][pn]
         names |= {p["usage_journey"], p["country"]} | set(p["devices"])
@@ -143,7 +147,8 @@ def corner_ops(rng, spec, guarded):
     placed = {j for s_ in spec["steps"].values() for j in s_["jobs"]}
     for jn in spec["jobs"]:
         if jn not in placed and used:
-            sn = rng.choice(sorted(used))
+            empty_steps = sorted(s_ for s_ in used if not spec["steps"][s_]["jobs"])
+            sn = rng.choice(empty_steps) if empty_steps and rng.random() < 0.7 else rng.choice(sorted(used))
             ops.append({"op": "listop", "kind": "steps", "name": sn, "attr": "jobs", "method": "append", "args": [jn]})
     # a grouped update of two inputs whose dependents overlap, one of them with a dependent of its own that feeds a
     # shared one (a job's need and its server's capacity): the order of the merged chain matters
@@ -186,6 +191,20 @@ def corner_ops(rng, spec, guarded):
     st_[2] = max(1, min(27, st_[2] + rng.choice([-1, 1])))
     if st_ != list(h_["start"]):
         ops.append({"op": "sethourly", "kind": "patterns", "name": pn_, "values": [round(rng.uniform(0.5, 400), 2) for _ in h_["values"]], "start": st_})
+    # a usage pattern taken out of the system, or put (back) into it
+    sys_pats = spec["system"]["usage_patterns"]
+    outside = [p for p in spec["patterns"] if p not in sys_pats and spec["patterns"][p]["devices"]]
+    if len(sys_pats) >= 2 and not guarded:      # D27: outside the domain in which the statement holds
+        k_ = rng.randrange(len(sys_pats))
+        ops.append({"op": "setlist", "kind": "system", "name": "__system__", "attr": "usage_patterns", "items": sys_pats[:k_] + sys_pats[k_ + 1:]})
+    if outside:
+        ops.append({"op": "setlist", "kind": "system", "name": "__system__", "attr": "usage_patterns", "items": sys_pats + [rng.choice(outside)]})
+    # a storing job that becomes a deleting job (and back), when the storage starts from a large base need
+    for jn, j in spec["jobs"].items():
+        st_ = spec["storages"][spec["servers"][j["server"]]["storage"]]
+        if jn in reach_all and j["data_stored"]["m"] != 0 and st_["base_storage_need"]["u"] == "TB" and st_["base_storage_need"]["m"] >= 50:
+            ops.append({"op": "setq", "kind": "jobs", "name": jn, "param": "data_stored", "value": {"m": -j["data_stored"]["m"], "u": j["data_stored"]["u"]}})
+            break
     # a journey that goes through one of its steps once more (same members: only the multiplicity changes)
     for p in spec["system"]["usage_patterns"]:
         ujn = spec["patterns"][p]["usage_journey"]
@@ -196,7 +215,7 @@ def corner_ops(rng, spec, guarded):
     if not ops:
         return None
     op = rng.choice(ops)
-    if guarded and op["op"] == "listop":
+    if guarded and op["op"] in ("listop", "setlist"):
         sp2 = copy.deepcopy(spec)
         tmp = Live.__new__(Live)
         tmp.spec = sp2
@@ -518,6 +537,13 @@ def live_accounting_shard(args):
         failed = False
         for step in range(rng.randint(1, 3)):
             op = corner_ops(rng, live.spec, True) if step == 0 else None
+            if step == 0 and i % 4 == 0:
+                # structural growth: a job of a server the system does not use yet, placed in a step without jobs
+                reach0 = reachable_spec_names(live.spec)
+                idle = [j for j, o in live.spec["jobs"].items() if j not in reach0 and o["server"] not in reach0]
+                empty = [s_ for s_ in live.spec["steps"] if s_ in reach0 and not live.spec["steps"][s_]["jobs"]]
+                if idle and empty:
+                    op = {"op": "listop", "kind": "steps", "name": rng.choice(sorted(empty)), "attr": "jobs", "method": "append", "args": [rng.choice(sorted(idle))]}
             if op is None:
                 op = gen_op(rng, live.spec, True)
             if op is None or not safe_after(live, op):
